@@ -199,7 +199,19 @@ def t_close(rng):
                    "local co = coroutine.wrap(gen) emit(co(), co())\nlocal co2 = coroutine.create(gen) coroutine.resume(co2) emit(coroutine.close(co2))\n" % n)
 
 
-TEMPLATES = [t_close, t_reentrant, t_deep, t_tail, t_unwind, t_coro, t_closures, t_live, t_regsizes, t_varargs, t_gocalls]
+def t_traceback(rng):
+    d = rng.choice([1, 4, 15, 60])
+    return "traceback", ("local function thrower(n) local a = n if n == 0 then error('bottom') end local r = thrower(n - 1) return r + a end\n"
+                         "local function failing(n) local a = n local bad <close> = setmetatable({}, {__close = function() error('in close ' .. a) end}) "
+                         "local t = {} for i = 1, n do t[i] = i end return #t, a end\n"
+                         "local function via(n) local x = failing(n) return x + n end\n"
+                         "for i = 1, 3 do\n  local ok, tb = xpcall(thrower, debug.traceback, %d + i)\n  emit(ok, tb)\n"
+                         "  local ok2, tb2 = xpcall(via, debug.traceback, i)\n  emit(ok2, tb2)\n"
+                         "  local function busy(n) if n == 0 then return 0 end local p, q = n, n return busy(n - 1) + p - q end\n  emit(busy(%d))\nend\n"
+                         "emit(debug.traceback('msg', 1))\n" % (d, d))
+
+
+TEMPLATES = [t_traceback, t_close, t_reentrant, t_deep, t_tail, t_unwind, t_coro, t_closures, t_live, t_regsizes, t_varargs, t_gocalls]
 
 
 def rand_program(rng):
@@ -360,11 +372,11 @@ def run(tier, seed):
         for fn in sorted(os.listdir(corpus)):
             if fn.endswith(".lua"):
                 programs.append(("corpus:" + fn, open(os.path.join(corpus, fn)).read()))
-    reps = 10 if tier == "quick" else 60
+    reps = 12 if tier == "quick" else 150
     for t in TEMPLATES:
         for _ in range(reps):
             programs.append(t(rng))
-    nrand = 600 if tier == "quick" else 6000
+    nrand = 1200 if tier == "quick" else 20000
     for _ in range(nrand):
         programs.append(rand_program(rng))
     lines = [lua_line("P%d" % i, src) for i, (_, src) in enumerate(programs)]
